@@ -5,20 +5,24 @@ From DV Require Import Proofs.NameOrder Proofs.NameValid Proofs.NameRel Proofs.N
 From DV Require Import Proofs.MessageName Proofs.MessageRender Proofs.MessageRead.
 Open Scope Z_scope.
 
+Section WithOrigin.
+Variable o : option name.
+Hypothesis OO : org_ok o.
+
 (* ---------- chains of RRs on the wire ---------- *)
 Record rrd := mkD { d_owner : name; d_ty : Z; d_cl : Z; d_ttl : Z; d_fs : list fld; d_rd : rdata }.
 
 Inductive Chain (w : list Z) : nat -> list rrd -> nat -> Prop :=
 | ch_nil off : (off <= length w)%nat -> Chain w off [] off
 | ch_cons off d mid ds end_ :
-    RRreads w off (d_owner d) (d_ty d) (d_cl d) (d_ttl d) (d_fs d) (d_rd d) mid ->
+    (exists abs', RRreads o o w off abs' (d_owner d) (d_ty d) (d_cl d) (d_ttl d) (d_fs d) (d_rd d) mid) ->
     Chain w mid ds end_ -> Chain w off (d :: ds) end_.
 
 Lemma Chain_app_w w more off ds end_ : Chain w off ds end_ -> Chain (w ++ more) off ds end_.
 Proof.
   induction 1.
   - constructor. rewrite app_length. lia.
-  - econstructor; [apply RRreads_app; eassumption|assumption].
+  - econstructor; [destruct H as (abs' & H); exists abs'; apply RRreads_app; exact H|exact IHChain].
 Qed.
 
 Lemma Chain_app w off ds1 mid ds2 end_ :
@@ -27,7 +31,7 @@ Proof. induction 1; intros H2; [exact H2|]. cbn [app]. econstructor; [eassumptio
 
 Lemma Chain_end w off ds end_ : Chain w off ds end_ -> (off <= end_ <= length w)%nat.
 Proof.
-  induction 1; [lia|]. destruct H as (c1 & rdl & A & B & C & _). lia.
+  induction 1; [lia|]. destruct H as (abs' & c1 & rdl & A & B & C & _). lia.
 Qed.
 
 Definition ordinary (d : rrd) : Prop :=
@@ -41,27 +45,28 @@ Definition apply_d (sec : Z) (fu : bool) (m : msg) (d : rrd) : msg :=
 
 Lemma get_section_chain w ext sec count : forall ds off end_ i fu m,
   Chain w off ds end_ -> Forall ordinary ds ->
-  get_section (w ++ ext) None po0 false sec count i (length ds) off fu m
+  get_section (w ++ ext) o po0 false sec count i (length ds) off fu m
   = Ok (end_, fu, fold_left (apply_d sec fu) ds m).
 Proof.
   induction ds as [|d ds IH]; intros off end_ i fu m C O.
   - inversion C; subst. reflexivity.
   - inversion C as [|? ? mid ? ? R C']; subst. inversion O as [|? ? (O1 & O2 & O3 & O4) O']; subst.
     cbn [length get_section].
-    rewrite (get_rr_ordinary w off _ _ _ _ _ _ mid ext sec count i fu m R O1 O2 O3 O4). cbn [bind].
+    destruct R as (abs' & R).
+    rewrite (get_rr_ordinary o w off abs' _ _ _ _ _ _ mid ext sec count i fu m R O1 O2 O3 O4). cbn [bind].
     rewrite (IH mid end_ (S i) fu _ C' O'). reflexivity.
 Qed.
 
 (* get_section reads a + b records as a records then b records *)
-Lemma get_section_split wire o po iu sec count : forall a b i cur fu m,
-  get_section wire o po iu sec count i (a + b) cur fu m =
-  do r <- get_section wire o po iu sec count i a cur fu m;
-  get_section wire o po iu sec count (i + a) b (fst (fst r)) (snd (fst r)) (snd r).
+Lemma get_section_split wire og po iu sec count : forall a b i cur fu m,
+  get_section wire og po iu sec count i (a + b) cur fu m =
+  do r <- get_section wire og po iu sec count i a cur fu m;
+  get_section wire og po iu sec count (i + a) b (fst (fst r)) (snd (fst r)) (snd r).
 Proof.
   induction a as [|a IH]; intros b i cur fu m.
   - cbn [Nat.add get_section bind fst snd]. rewrite Nat.add_0_r. reflexivity.
   - cbn [Nat.add get_section].
-    destruct (get_rr wire o po iu sec count i cur fu m) as [[[cur' fu'] m']| |]; cbn [bind]; try reflexivity.
+    destruct (get_rr wire og po iu sec count i cur fu m) as [[[cur' fu'] m']| |]; cbn [bind]; try reflexivity.
     rewrite IH. replace (S i + a)%nat with (i + S a)%nat by lia. reflexivity.
 Qed.
 
@@ -81,13 +86,13 @@ Proof. induction 1; cbn; congruence. Qed.
 (* ---------- rendering produces chains ---------- *)
 Definition desc_of (owner : name) (ty cl ttl : Z) (fs : list fld) (d : rrd) (rd : rdata) : Prop :=
   d_ty d = ty /\ d_cl d = cl /\ d_ttl d = ttl /\ d_fs d = fs /\
-  ci_equal (d_owner d) owner /\ name_ok (d_owner d) /\
-  rdata_ci (d_rd d) rd /\ Forall piece_ok (d_rd d) /\ shaped fs (d_rd d).
+  ci_equal (d_owner d) owner /\ name_wf o (d_owner d) /\
+  rdata_ci (d_rd d) rd /\ Forall (piece_wf o) (d_rd d) /\ shaped fs (d_rd d).
 
 Lemma rrs_em_chain fs owner ty cl ttl : forall rds file t em t',
-  TableSound file t -> name_ok owner ->
-  Forall (fun rd => Forall piece_ok rd /\ shaped fs rd) rds ->
-  rrs_em owner ty cl ttl rds None true (zlen file) t = Ok (em, t') ->
+  TableSound file t -> name_wf o owner ->
+  Forall (fun rd => Forall (piece_wf o) rd /\ shaped fs rd) rds ->
+  rrs_em owner ty cl ttl rds o true (zlen file) t = Ok (em, t') ->
   TableSound (file ++ em) t' /\
   (rds <> [] -> 0 <= ty <= 65535 /\ 0 <= cl <= 65535 /\ 0 <= ttl <= 4294967295) /\
   exists ds, Chain (file ++ em) (length file) ds (length (file ++ em)) /\
@@ -99,14 +104,17 @@ Proof.
   - cbn [rrs_em] in H. apply bind_ok in H. destruct H as ([e1 t1] & H1 & H).
     apply bind_ok in H. destruct H as ([e2 t2] & H2 & H). injection H as <- <-. cbn [fst snd] in *.
     inversion HF as [|? ? (PO & S) HF']; subst.
-    destruct (rr_em_read fs owner ty cl ttl rd true true file t e1 t1 TS NO PO S H1)
-      as (TS1 & R1 & R2 & R3 & owner' & rd' & c1 & rdl & CI1 & NO1 & CI2 & PO2 & S2 & A & B & C & E).
+    destruct (name_wf_full o owner OO NO) as (Lown & HFo & NOL).
+    destruct (rr_em_read o o fs owner Lown ty cl ttl rd true true file t e1 t1 OO OO TS HFo NOL PO S H1)
+      as (TS1 & R1 & R2 & R3 & abs' & owner' & rd' & c1 & rdl & CIa & NOa & HX & CI2 & PO2 & S2 & A & B & C & E).
+    destruct (name_back o owner Lown abs' OO NO HFo CIa NOa) as (x' & HX' & CI1 & NO1).
+    assert (x' = owner') by congruence. subst x'.
     rewrite <- zlen_app' in H2.
     destruct (IH (file ++ e1) t1 e2 t2 TS1 NO HF' H2) as (TS2 & _ & ds & CH & F2).
     rewrite <- app_assoc in TS2, CH. split; [exact TS2|]. split; [auto|].
     exists (mkD owner' ty cl ttl fs rd' :: ds). split.
     + econstructor; [|exact CH]. cbn [d_owner d_ty d_cl d_ttl d_fs d_rd].
-      rewrite app_assoc. apply RRreads_app.
+      exists abs'. rewrite app_assoc. apply RRreads_app.
       exists c1, rdl. split; [exact A|]. split; [lia|]. split; [exact B|]. split; [exact C|]. exact E.
     + constructor; [|exact F2]. unfold desc_of. cbn [d_owner d_ty d_cl d_ttl d_fs d_rd]. auto 10.
 Qed.
@@ -116,11 +124,11 @@ Definition NoDupRd (rds : list rdata) : Prop :=
   ForallOrdPairs (fun a b => rdata_eqb a b = false) rds.
 
 Definition wf_rrset (rs : rrset) : Prop :=
-  name_ok (rname rs) /\ rdeleting rs = None /\ rrds rs <> [] /\
+  name_wf o (rname rs) /\ rdeleting rs = None /\ rrds rs <> [] /\
   rtype rs <> tOPT /\ rtype rs <> tTSIG /\
   0 <= rttl rs <= 2147483647 /\
   (exists fs, schema_of (rclass rs) (rtype rs) = Some fs /\
-              Forall (fun rd => Forall piece_ok rd /\ shaped fs rd) (rrds rs)) /\
+              Forall (fun rd => Forall (piece_wf o) rd /\ shaped fs rd) (rrds rs)) /\
   Forall (fun rd => rd_covers (rtype rs) rd = rcovers rs) (rrds rs) /\
   NoDupRd (rrds rs) /\
   (is_singleton (rtype rs) = true -> length (rrds rs) = 1%nat).
@@ -136,7 +144,7 @@ Inductive SecDesc : list rrset -> list rrd -> Prop :=
 
 Lemma rrset_em_chain rs file t em t' :
   TableSound file t -> wf_rrset rs ->
-  rrset_em rs None true (zlen file) t = Ok (em, t') ->
+  rrset_em rs o true (zlen file) t = Ok (em, t') ->
   TableSound (file ++ em) t' /\
   exists ds, Chain (file ++ em) (length file) ds (length (file ++ em)) /\
              Forall2 (desc_of (rname rs) (rtype rs) (rclass rs) (rttl rs) (rs_fs rs)) ds (rrds rs) /\
@@ -160,7 +168,7 @@ Definition count_of (r : rst) (sec : Z) : Z :=
 Lemma add_rrsets_chain sec : forall l r r' file,
   1 <= sec <= 3 ->
   zlen file = zlen (out r) -> TableSound file (tbl r) -> TblBelow r -> Forall wf_rrset l ->
-  add_rrsets None sec l r = Ok (false, r') ->
+  add_rrsets o sec l r = Ok (false, r') ->
   exists em ds,
     out r' = out r ++ em /\ TableSound (file ++ em) (tbl r') /\ TblBelow r' /\
     Chain (file ++ em) (length file) ds (length (file ++ em)) /\ SecDesc l ds /\
@@ -270,7 +278,7 @@ Proof.
 Qed.
 
 Definition rrset_equiv (a b : rrset) : Prop :=
-  ci_equal (rname a) (rname b) /\ name_ok (rname a) /\ rclass a = rclass b /\ rtype a = rtype b /\
+  ci_equal (rname a) (rname b) /\ rclass a = rclass b /\ rtype a = rtype b /\
   rcovers a = rcovers b /\ rdeleting a = rdeleting b /\ rttl a = rttl b /\
   Forall2 rdata_ci (rrds a) (rrds b).
 
@@ -387,7 +395,7 @@ Qed.
 
 Lemma key_match_equiv rs s s' : rrset_equiv s' s -> key_of_match rs s' = key_of_match rs s.
 Proof.
-  intros (E1 & _ & E2 & E3 & E4 & E5 & _). unfold key_of_match, key_match.
+  intros (E1 & E2 & E3 & E4 & E5 & _). unfold key_of_match, key_match.
   rewrite E2, E3, E4, E5. rewrite (name_eqb_ci_l _ _ _ E1). reflexivity.
 Qed.
 
@@ -425,7 +433,7 @@ Proof.
     rewrite Hyr. exact Hb.
   - exists (set_rds cur (rttl rs) (rrds cur ++ rds')). split; [|exact E'].
     unfold rrset_equiv, cur. cbn [rname rclass rtype rcovers rdeleting rttl rrds set_rds app].
-    split; [exact D5|]. split; [exact D6|]. split; [reflexivity|]. split; [reflexivity|].
+    split; [exact D5|]. split; [reflexivity|]. split; [reflexivity|].
     split; [reflexivity|]. split; [symmetry; exact DEL|]. split; [reflexivity|].
     rewrite E. constructor; assumption.
 Qed.
@@ -479,7 +487,7 @@ Definition QReads (w : list Z) (off : nat) (n' : name) (ty cl : Z) (end_ : nat) 
   (end_ <= length w)%nat /\ (off < end_)%nat /\
   forall ext, exists c1 : nat,
     (c1 + 4 = end_)%nat /\
-    nm_from_wire (w ++ ext) (length (w ++ ext)) off = Ok (n', c1) /\
+    get_name (w ++ ext) o (length (w ++ ext)) off = Ok (n', c1) /\
     rd_u16 (w ++ ext) (length (w ++ ext)) c1 = Ok ty /\
     rd_u16 (w ++ ext) (length (w ++ ext)) (c1 + 2) = Ok cl.
 
@@ -490,16 +498,18 @@ Proof.
 Qed.
 
 Lemma q_em_read n ty cl file t em t' :
-  TableSound file t -> name_ok n -> q_em None n ty cl (zlen file) t = Ok (em, t') ->
+  TableSound file t -> name_wf o n -> q_em o n ty cl (zlen file) t = Ok (em, t') ->
   TableSound (file ++ em) t' /\
-  exists n', ci_equal n' n /\ name_ok n' /\ QReads (file ++ em) (length file) n' ty cl (length (file ++ em)).
+  exists n', ci_equal n' n /\ name_wf o n' /\ QReads (file ++ em) (length file) n' ty cl (length (file ++ em)).
 Proof.
   intros TS NO H. unfold q_em in H.
   apply bind_ok in H. destruct H as ([e1 t1] & H1 & H).
   apply bind_ok in H. destruct H as (h1 & E1 & H). apply bind_ok in H. destruct H as (h2 & E2 & H).
   cbn [fst snd] in H. injection H as <- <-.
   apply pack16_ok in E1, E2. destruct E1 as (-> & R1). destruct E2 as (-> & R2).
-  destruct (nm_em_sound _ _ _ _ _ _ TS NO H1) as (TS1 & n' & CI1 & NO1 & D1).
+  destruct (name_wf_full o n OO NO) as (L & HF & NOL).
+  destruct (nm_em_sound _ _ _ _ _ _ _ _ TS HF NOL H1) as (TS1 & L' & CIL & NOL' & D1).
+  destruct (name_back o n L L' OO NO HF CIL NOL') as (n' & HRZ & CI1 & NO1).
   split.
   { rewrite app_assoc. apply TableSound_app. exact TS1. }
   exists n'. split; [exact CI1|]. split; [exact NO1|].
@@ -510,7 +520,8 @@ Proof.
   replace ((file ++ e1 ++ MessageM.u16 ty ++ MessageM.u16 cl) ++ ext)
     with ((file ++ e1) ++ (MessageM.u16 ty ++ MessageM.u16 cl ++ ext)) by (rewrite <- !app_assoc; reflexivity).
   split.
-  - apply nm_read; [exact NO1|exact D1|]. rewrite !app_length. lia.
+  - rewrite (get_name_relz o _ _ _ OO). rewrite (nm_read file e1 _ _ L' NOL' D1) by (rewrite !app_length; lia).
+    cbn [bind fst snd]. rewrite HRZ. reflexivity.
   - split.
     + rewrite rd_u16_at; [reflexivity|lia|]. rewrite !app_length. cbn [length MessageM.u16]. lia.
     + replace ((file ++ e1) ++ MessageM.u16 ty ++ MessageM.u16 cl ++ ext)
@@ -541,25 +552,25 @@ Definition add_q (m : msg) (q : qd) : msg :=
 
 Lemma get_question_chain w ext : forall qs off end_ m,
   QChain w off qs end_ ->
-  get_question (w ++ ext) None false (length qs) off m = Ok (end_, fold_left add_q qs m).
+  get_question (w ++ ext) o false (length qs) off m = Ok (end_, fold_left add_q qs m).
 Proof.
   induction qs as [|q qs IH]; intros off end_ m C.
   - inversion C; subst. reflexivity.
   - inversion C as [|? ? mid ? ? R C']; subst. cbn [length get_question].
     destruct R as (_ & _ & R). destruct (R ext) as (c1 & Hc & Hn & Ht & Hcl).
-    unfold get_name. rewrite Hn. cbn [bind fst snd]. rewrite Ht, Hcl. cbn [bind].
+    rewrite Hn. cbn [bind fst snd]. rewrite Ht, Hcl. cbn [bind].
     unfold parse_rr_header. cbn [negb bind].
     replace (c1 + 4)%nat with mid by lia.
     rewrite (IH mid end_ _ C'). reflexivity.
 Qed.
 
 Definition q_desc (rs : rrset) (q : qd) : Prop :=
-  ci_equal (q_name q) (rname rs) /\ name_ok (q_name q) /\ q_ty q = rtype rs /\ q_cl q = rclass rs.
+  ci_equal (q_name q) (rname rs) /\ name_wf o (q_name q) /\ q_ty q = rtype rs /\ q_cl q = rclass rs.
 
 Lemma add_questions_chain : forall l r r' file,
   zlen file = zlen (out r) -> TableSound file (tbl r) -> TblBelow r ->
-  Forall (fun rs => name_ok (rname rs)) l ->
-  add_questions None l r = Ok (false, r') ->
+  Forall (fun rs => name_wf o (rname rs)) l ->
+  add_questions o l r = Ok (false, r') ->
   exists em qs,
     out r' = out r ++ em /\ TableSound (file ++ em) (tbl r') /\ TblBelow r' /\
     QChain (file ++ em) (length file) qs (length (file ++ em)) /\ Forall2 q_desc l qs /\
@@ -652,10 +663,10 @@ Proof.
   injection H as H. destruct l; [reflexivity|discriminate].
 Qed.
 
-Lemma get_rr_opt w off owner' cl ttl wb os end_ ext count i fu m :
-  RRreads w off owner' tOPT cl ttl [FRest] [PB wb] end_ -> ci_equal owner' [[]] ->
+Lemma get_rr_opt iu w off abs' owner' cl ttl wb os end_ ext count i fu m :
+  RRreads o o w off abs' owner' tOPT cl ttl [FRest] [PB wb] end_ -> ci_equal owner' [[]] ->
   opts_wire os = Ok wb -> opts_ok os -> mopt m = None ->
-  get_rr (w ++ ext) None po0 false 3 count i off fu m = Ok (end_, fu, set_opt m (mkOpt ttl cl os)).
+  get_rr (w ++ ext) o po0 iu 3 count i off fu m = Ok (end_, fu, set_opt m (mkOpt ttl cl os)).
 Proof.
   intros (c1 & rdl & A & B & C & D & E) CI HW OK HM.
   destruct (E ext) as (EH & ED). apply ci_root in CI. subst owner'.
@@ -690,14 +701,14 @@ Definition tsig_fs : list fld := [FNameA; FFix 8; FCnt16; FFix 2; FMax16 4095; F
 
 Record WfMsg (m : msg) : Prop := mkWf {
   wf_notupdate : (opcode_from_flags (mflags m) =? 5) = false;
-  wf_q : Forall (fun rs => name_ok (rname rs)) (mq m);
+  wf_q : Forall (fun rs => name_wf o (rname rs)) (mq m);
   wf_an : Forall wf_rrset (man m);
   wf_au : Forall wf_rrset (mau m);
   wf_ad : Forall wf_rrset (mad m);
   wf_keys_an : keys_fresh [] (man m);
   wf_keys_au : keys_fresh [] (mau m);
   wf_keys_ad : keys_fresh [] (mad m);
-  wf_opt : match mopt m with Some o => opts_ok (oopts o) | None => True end }.
+  wf_opt : match mopt m with Some oo => opts_ok (oopts oo) /\ name_wf o [[]] | None => True end }.
 
 Definition hdr_bytes (id flags c0 c1 c2 c3 : Z) : list Z :=
   MessageM.u16 id ++ MessageM.u16 flags ++ MessageM.u16 c0 ++ MessageM.u16 c1 ++ MessageM.u16 c2 ++ MessageM.u16 c3.
@@ -728,16 +739,17 @@ Proof.
 Qed.
 
 (* the OPT record written by add_opt (no padding) *)
-Lemma add_opt_chain o os ts r r' file :
+Lemma add_opt_chain (oo : optrec) os ts r r' file :
+  name_wf o [[]] ->
   zlen file = zlen (out r) -> TableSound file (tbl r) -> TblBelow r ->
-  add_opt None o 0 os ts r = Ok (false, r') ->
-  exists em wb owner',
-    out r' = out r ++ em /\ opts_wire (oopts o) = Ok wb /\ ci_equal owner' [[]] /\
-    RRreads (file ++ em) (length file) owner' tOPT (opayload o) (oflags o) [FRest] [PB wb] (length (file ++ em)) /\
+  add_opt o oo 0 os ts r = Ok (false, r') ->
+  exists em wb abs' owner',
+    out r' = out r ++ em /\ opts_wire (oopts oo) = Ok wb /\ ci_equal owner' [[]] /\
+    RRreads o o (file ++ em) (length file) abs' owner' tOPT (opayload oo) (oflags oo) [FRest] [PB wb] (length (file ++ em)) /\
     TableSound (file ++ em) (tbl r') /\
     cq r' = cq r /\ can r' = can r /\ cau r' = cau r /\ cad r' = cad r + 1 /\ rflags r' = rflags r.
 Proof.
-  intros Hz TS TB H. unfold add_opt in H. cbn [Z.eqb] in H.
+  intros NW Hz TS TB H. unfold add_opt in H. cbn [Z.eqb] in H.
   apply bind_ok in H. destruct H as (rs & HR & H). unfold opt_rrset in HR.
   apply bind_ok in HR. destruct HR as (wb & HW & HR). injection HR as <-.
   rewrite add_rrset_tracked in H.
@@ -746,12 +758,14 @@ Proof.
   rewrite <- Hz in HE. unfold rrset_em, wclass in HE. cbn [rrds rdeleting rname rtype rclass rttl] in HE.
   cbn [rrs_em] in HE. apply bind_ok in HE. destruct HE as ([e1 t1] & H1 & HE). cbn [bind fst snd] in HE.
   injection HE as <- <-. rewrite app_nil_r in *.
-  assert (NO : name_ok [[]]) by (split; [apply Valid_root|reflexivity]).
-  assert (PO : Forall piece_ok [PB wb]) by (constructor; [exact Logic.I|constructor]).
+  destruct (name_wf_full o [[]] OO NW) as (Lr & HFr & NOr).
+  assert (PO : Forall (piece_wf o) [PB wb]) by (constructor; [exact Logic.I|constructor]).
   assert (S0 : shaped [FRest] [PB wb]) by constructor.
-  destruct (rr_em_read [FRest] [[]] tOPT (opayload o) (oflags o) [PB wb] true true file (tbl r) e1 t1 TS NO PO S0 H1)
-    as (TS1 & R1 & R2 & R3 & owner' & rd' & c1 & rdl & CI1 & NO1 & CI2 & PO2 & S2 & A & B & C & E).
-  exists e1, wb, owner'. cbn [out tbl cq can cau cad rflags inc_count set_out set_rsec Z.eqb Pos.eqb].
+  destruct (rr_em_read o o [FRest] [[]] Lr tOPT (opayload oo) (oflags oo) [PB wb] true true file (tbl r) e1 t1 OO OO TS HFr NOr PO S0 H1)
+    as (TS1 & R1 & R2 & R3 & abs' & owner' & rd' & c1 & rdl & CIa & NOa & HX & CI2 & PO2 & S2 & A & B & C & E).
+  destruct (name_back o [[]] Lr abs' OO NW HFr CIa NOa) as (x' & HX' & CI1 & _).
+  assert (x' = owner') by congruence. subst x'.
+  exists e1, wb, abs', owner'. cbn [out tbl cq can cau cad rflags inc_count set_out set_rsec Z.eqb Pos.eqb].
   split; [reflexivity|]. split; [exact HW|]. split; [exact CI1|]. split.
   - assert (rd' = [PB wb]).
     { inversion CI2 as [|x y l l' Hxy Hl]; subst. inversion Hl; subst. destruct x; cbn in Hxy; try contradiction. subst. reflexivity. }
@@ -784,3 +798,5 @@ Proof.
   rewrite A, B, C, D, A', B', C', D'. repeat split; try reflexivity.
   intros s Hs Hne. rewrite (E s Hs Hne). apply E'; assumption.
 Qed.
+
+End WithOrigin.
